@@ -82,10 +82,9 @@ class SimLock:
         self._real.release()
 
     def locked(self):
-        if self._real.acquire(False):
-            self._real.release()
-            return False
-        return True
+        # bookkeeping, not a trial acquire: the controller may be the very thread that holds a
+        # re-entrant lock (left held by a call made during the sequential warm-up)
+        return self._count > 0
 
     def _is_owned(self):
         return self._owner == self._me()
@@ -255,7 +254,13 @@ class Scheduler:
                 if self.state[tid] == "blocked":
                     lock = self.blocked_on[tid]
                     owner = self._owner_tid(lock)
+                    if owner is None and lock.locked():
+                        # held by a thread that is not part of the schedule (left held by an earlier,
+                        # e.g. failed, call): nobody will ever release it
+                        raise Deadlock("thread %d waits for a lock that no simulated thread holds" % tid)
                     if owner is not None and owner != tid and lock.locked():
+                        if self.state[owner] == "done":
+                            raise Deadlock("thread %d waits for a lock still held by thread %d, which has finished" % (tid, owner))
                         # the owner has to release the lock first: follow the wait chain
                         seen = {tid}
                         while self.state[owner] == "blocked":
